@@ -11,7 +11,8 @@ import (
 
 type c08Grid struct {
 	variation, flushes, reverts int
-	pending, reopen             bool
+	pending                     int // 0 none, 1 unflushed mutations, 2 unflushed mutations + Collection.Write()
+	reopen                      bool
 }
 
 func c08Cases(tier string) []c08Grid {
@@ -19,10 +20,10 @@ func c08Cases(tier string) []c08Grid {
 	vars := pick(tier, 5, 60)
 	for v := 0; v < vars; v++ {
 		for f := 0; f <= 6; f++ {
-			for _, pending := range []bool{false, true} {
+			for pending := 0; pending < 3; pending++ {
 				for _, reopen := range []bool{false, true} {
 					for r := 1; r <= f+2; r++ {
-						res = append(res, c08Grid{v, f, r, pending, reopen})
+						res = append(res, c08Grid{variation: v, flushes: f, reverts: r, pending: pending, reopen: reopen})
 					}
 				}
 			}
@@ -34,16 +35,16 @@ func c08Cases(tier string) []c08Grid {
 func init() {
 	register(&Prop{
 		ID: "C08", Level: "exploration",
-		Rule: "grid cases: for every (flushes f in 0..6) x (unflushed changes pending: no/yes) x (re-open before reverting: no/yes) x (consecutive reverts r in 1..f+2, i.e. always past the first flush) x content variations, the store is built with random mutations between the flushes, reverted r times, and after every revert compared with the model's stack of flushed states (contents of every collection, names, file length = end of that flush's root record, a second store opened on a copy of the file, the independent decoder); then mutated, flushed and re-opened again. Further cases are random histories (several collections, collection add/remove between flushes, memory-only stores which must refuse). Termination is decided on logical steps: the rootscan.iter hook counts scan iterations and more than 2*filesize+64 is impossible for a terminating scan. Non-trivial = at least one revert executed on a file with >= 1 flush, or a revert past the first flush; distinct = distinct op-trace hash.",
+		Rule: "grid cases: for every (flushes f in 0..6) x (pending: nothing / unflushed mutations / unflushed mutations plus a Collection.Write() that leaves unreferenced bytes after the last root record) x (re-open before reverting: no/yes) x (consecutive reverts r in 1..f+2, i.e. always past the first flush) x content variations, the store is built with random mutations between the flushes, reverted r times, and after every revert compared with the model's stack of flushed states (contents of every collection, names, file length = end of that flush's root record, a second store opened on a copy of the file, the independent decoder); then mutated, flushed and re-opened again. Further cases are random histories (several collections, collection add/remove between flushes, memory-only stores which must refuse). Termination is decided on logical steps: the rootscan.iter hook counts scan iterations and more than 2*filesize+64 is impossible for a terminating scan. Non-trivial = at least one revert executed on a file with >= 1 flush, or a revert past the first flush; distinct = distinct op-trace hash.",
 		Assumptions: []string{
 			"snapshots taken before a FlushRevert of the original are closed first (README)",
-			"no Collection.Write()/failed Flush between the last Flush and FlushRevert in the grid cases (that input class is C07's)",
+			"failed flushes between the last Flush and FlushRevert are exercised under C07 (fault injection), Collection.Write() here",
 		},
 		Exhaustive: func(string) bool { return false },
 		NumCases:   func(tier string) int { return len(c08Cases(tier)) + pick(tier, 300, 20000) },
 		Run:        runC08,
 		Floor: func(tier string, st map[string]int64) string {
-			for _, k := range []string{"op.FlushRevert", "c08.revert-past-first", "c08.revert-to-previous", "c08.flush-after-revert", "c08.memonly-refused", "rootscan.iters"} {
+			for _, k := range []string{"op.FlushRevert", "c08.revert-past-first", "c08.revert-to-previous", "c08.flush-after-revert", "c08.memonly-refused", "rootscan.iters", "c08.collwrite-before-revert"} {
 				if st[k] == 0 {
 					return "no " + k + " observed"
 				}
@@ -81,8 +82,16 @@ func runC08(ctx *Ctx, idx int) Result {
 		e.Flush()
 		e.AfterStep()
 	}
-	if g.pending {
+	if g.pending > 0 {
 		mutate(r.Range(1, 4))
+	}
+	if g.pending == 2 && !e.Failed() {
+		// unreferenced data after the last root record (items and nodes, no roots)
+		for _, n := range e.M.Live.Names() {
+			e.CollWrite(n)
+		}
+		e.AfterStep()
+		ctx.Stats["c08.collwrite-before-revert"]++
 	}
 	if g.reopen && !e.Failed() {
 		e.Reopen(r.Bool())
@@ -91,7 +100,7 @@ func runC08(ctx *Ctx, idx int) Result {
 	for i := 0; i < g.reverts && !e.Failed(); i++ {
 		before := len(e.M.Flushes)
 		e.FlushRevert()
-		if e.Failed() {
+		if e.Failed() || e.NoRootsStop {
 			break
 		}
 		if before <= 1 {
@@ -105,7 +114,7 @@ func runC08(ctx *Ctx, idx int) Result {
 		e.AfterStep()
 	}
 	// new flushes after a revert are durable as usual
-	if !e.Failed() {
+	if !e.Failed() && !e.NoRootsStop {
 		if len(e.M.Live.Colls) == 0 {
 			e.SetCollection(h.Names[0], e.Cmps[h.Names[0]])
 		}
@@ -124,7 +133,7 @@ func runC08(ctx *Ctx, idx int) Result {
 		Sample: map[string]interface{}{"index": idx, "grid": fmt.Sprintf("%+v", g), "ops": tail(e.Trace, 40)}}
 }
 
-var mixC08 = Mix{Set: 30, Delete: 8, GetItem: 4, Visit: 2, Flush: 12, Evict: 3, Reopen: 3, FlushRevert: 8, SetCollNew: 3, RemoveColl: 2, SetCollExisting: 1, Snapshot: 2, SnapRead: 3, SnapClose: 2}
+var mixC08 = Mix{Set: 30, Delete: 8, GetItem: 4, Visit: 2, Flush: 12, Evict: 3, Reopen: 4, FlushRevert: 8, CollWrite: 4, SetCollNew: 3, RemoveColl: 2, SetCollExisting: 1, Snapshot: 2, SnapRead: 3, SnapClose: 2}
 
 func runC08Random(ctx *Ctx, idx int, r *gen.R) Result {
 	cfg := driver.Config{MemOnly: r.P(8), ReadbackK: []int{1, 2, 5}[r.Intn(3)], Decode: true, ReopenCheck: r.P(50), Walk: r.P(30)}
